@@ -10,6 +10,7 @@ def run(ctx):
     b = build.ensure_explorer("arc_walk", "asan", extra_ld=WRAP)
     ctx.run_space(b, "kinds", ["prop=16", "stride=1"], cpu_limit=120)
     ctx.run_space(b, "sfx", cpu_limit=120)
+    ctx.run_space(b, "l1skip", cpu_limit=60)
     # gigabytes of member data in front of further members: a virtual stream served by callbacks (optimised build: 2^31 bytes go
     # through 32-byte reads when there is no skip function)
     pl = build.ensure_explorer("arc_walk", "plain", extra_ld=WRAP)
@@ -21,7 +22,7 @@ def run(ctx):
     return ctx.finish(
         rule="'kinds': 7 generated archives (levels 0-3, all 14 methods, directories/links, SFX stub, empty/unknown-method members, members crossing the read blocks) cut at every offset (quick: every offset near headers/member ends and a stride elsewhere) x walks {list, read, check} x 5 stream kinds "
              "{seekable FILE, pipe FILE, callbacks without skip, callbacks whose skip fails past the end, seek-like skip}: observations (headers, bytes, verdicts) equal across kinds and equal to the member table for complete members; "
-             "'huge': a first member with 2^31-16, 2^31-1, 2^31, 2^31+5 and 2^32-1 bytes of data served by callbacks with and without a skip function (2^32-1 without skip: thorough), two members behind it; 'sfx': clean prefixes of every length 0..64, around k*24, 1000..1050, 255KiB-40..255KiB x 3 filler families x {pipe, callbacks}; near-miss fragments at every offset of prefixes up to 40 bytes; marker + one decoy header at 48 offsets x gaps. non-trivial = distinct (archive, cut, walk) / prefix shapes",
+             "'l1skip': level-1 headers with 1..5 extended headers, the skip-size field set to every value from 0 to 12 past the true one, each read through all 5 stream kinds; 'huge': a first member with 2^31-16, 2^31-1, 2^31, 2^31+5 and 2^32-1 bytes of data served by callbacks with and without a skip function (2^32-1 without skip: thorough), two members behind it; 'sfx': clean prefixes of every length 0..64, around k*24, 1000..1050, 255KiB-40..255KiB x 3 filler families x {pipe, callbacks}; near-miss fragments at every offset of prefixes up to 40 bytes; marker + one decoy header at 48 offsets x gaps. non-trivial = distinct (archive, cut, walk) / prefix shapes",
         replay_fn=lambda rep: (cliprop.replay_case(rep) if rep.get('kind') == 'cli' else runner.replay_explorer(rep, quiet=True)))
 
 
